@@ -1695,3 +1695,25 @@ def abort_wrap(check: Check, repo: Repo, rule: str = "ABORT-WRAP") -> None:
     _ = mod
     if n < 2:
         raise AnalysisError("ABORT-WRAP: awaits of user callback results not found")
+
+
+def handler_type_arg(check: Check, repo: Repo, mods: list[Module], rule: str = "HANDLER-TYPE") -> None:
+    check.rule(
+        rule,
+        "handle_field_error decides by the declared type of the *position* whether a failed completion becomes "
+        "null or propagates; every call passes that type as the local/parameter naming the type being completed "
+        "(return_type for a field, item_type for a list item) - never `info.return_type`: the resolve info is "
+        "shared by all items of a list, so an item of `[T!]` would be nulled (and an item of `[T]!` would "
+        "null the list) when its completion fails asynchronously, unlike the synchronous path",
+    )
+    n = 0
+    for mod in mods:
+        for c in ast.walk(mod.tree):
+            if isinstance(c, ast.Call) and last_attr(c) == "handle_field_error" and len(c.args) >= 2:
+                a = c.args[1]
+                ok = isinstance(a, ast.Name)
+                n += 1
+                check.ob(rule, c, f"{qualname_of(c)}: handle_field_error(_, {unparse(a)}, ...)", ok,
+                         "the type of the position in hand" if ok else f"`{unparse(a)}` is read from a shared object, not the type of this position")
+    if n < 4:
+        raise AnalysisError("HANDLER-TYPE: handle_field_error calls not found")
